@@ -138,14 +138,16 @@ class Parser(object):
             if regex_token.type == 'REGEX':
                 self.parser.errok()
                 return regex_token
-        if (cur_token.type == 'DIV' and self.lexer.valid_prev_token.type in (
-                'RBRACE', 'PLUSPLUS', 'MINUSMINUS')):
+        if (cur_token.type in ('DIV', 'DIVEQUAL') and
+                self.lexer.valid_prev_token.type in (
+                    'RBRACE', 'PLUSPLUS', 'MINUSMINUS')):
             # this is the most pathological case in JavaScript; given
             # the usage of the LRParser there is no way to use the rules
             # below to signal the specific "safe" cases, so we have to
             # wait until such an error to occur for specific tokens and
             # attempt to backtrack here
-            regex_token = self.lexer.backtracked_token(pos=1)
+            regex_token = self.lexer.backtracked_token(
+                pos=len(cur_token.value))
             if regex_token.type == 'REGEX':
                 self.parser.errok()
                 return regex_token
